@@ -174,7 +174,18 @@ def build(f):
                '<label kind="guard">%s</label></transition></template>' % escape(gq))
     xml.append('<template><name>QB</name><parameter>bool bq</parameter><location id="b0"><name>K0</name></location><init ref="b0"/></template>')
     xml.append('<system>%s\n%s</system></nta>' % (escape('\n'.join(i for i in inst if not i.startswith('R('))), system))
-    return ''.join(xml), queries, E, qexp
+    name = f.get('name', 'n')
+    xml = ''.join(xml)
+    # other words that the query grammar re-admits as identifiers are declared too, with bounds of their own: a name mixed up with one of them shows
+    others = [w for w in ('sup', 'inf', 'bounds', 'simulation') if w != name]
+    distract = ' '.join('const int[0,%d] %s = 0;' % (91 + k, w) for k, w in enumerate(others))
+    xml = xml.replace('<nta><declaration>', '<nta><declaration>' + distract + '\n', 1)
+    if name != 'n':
+        ren = lambda s: re.sub(r'(?<![A-Za-z_0-9$#.])n(?![A-Za-z_0-9$#])', name.replace('\\', '\\\\'), s)
+        xml = re.sub(r'>([^<]*)<', lambda mo: '>' + ren(mo.group(1)) + '<', xml)
+        queries = [re.sub(r'\.n(?![A-Za-z_0-9$#])', '.' + name, ren(q)) for q in queries]
+    E.name = name
+    return xml, queries, E, qexp
 
 
 def p1_lines(f, targ):
@@ -274,7 +285,8 @@ def function_text(E, f, name, where):
 FLAGS = st.fixed_dictionaries({
     'g_pos': st.sampled_from([1, 1, 1, 0, 2, 3]), 'gfun_early': st.booleans(), 'tp': st.booleans(), 'tl': st.booleans(), 'ff': st.booleans(), 'fl': st.booleans(),
     'b1': st.integers(0, 2), 'b2': st.integers(0, 2), 'it': st.integers(0, 3), 'quant_in_fun': st.booleans(), 'quant_in_guard': st.booleans(),
-    'quant_nested': st.booleans(), 'quant_kw': st.integers(0, 1), 'sel': st.integers(0, 3), 'ip': st.booleans(), 'ifelse': st.booleans(), 'chain': st.integers(0, 3)})
+    'quant_nested': st.booleans(), 'quant_kw': st.integers(0, 1), 'sel': st.integers(0, 3), 'ip': st.booleans(), 'ifelse': st.booleans(), 'chain': st.integers(0, 3),
+    'name': st.sampled_from(['n', 'n', 'n', 'bounds', 'inf', 'sup', 'simulation', '_n', 'n$'])})
 
 BOUND_RE = re.compile(r'RANGE\(INT,UNKNOWN<[^<>]*>,UNKNOWN<([^<>]*)>\)')
 
@@ -289,9 +301,9 @@ def evaluate(step, E, qexp, nq):
     out = []
     text = json.dumps(step.get('doc')) + json.dumps([q.get('exprs') for q in step.get('queries', [])])
     symtab = step.get('symtab', {})
-    unknown_errors = [e for e in step.get('errors', []) if e['msg'].startswith('$Unknown_identifier: n')]
+    unknown_errors = [e for e in step.get('errors', []) if e['msg'].startswith('$Unknown_identifier: ' + getattr(E, 'name', 'n'))]
     for q in step.get('queries', []):
-        unknown_errors += [m for m in q.get('msgs', []) if m.startswith('E:$Unknown_identifier: n')]
+        unknown_errors += [m for m in q.get('msgs', []) if m.startswith('E:$Unknown_identifier: ' + getattr(E, 'name', 'n'))]
     expected_unknown = 0
     for u in E.uses:
         if u['where'].startswith('query') and step.get('errors'):
